@@ -248,14 +248,15 @@ mod groups {
             self.key_sets.retain(|e| e.group_key_set_id != id);
             let removed = self.key_sets.len() < before;
 
+            // Check if element was actually removed: a refused removal must leave
+            // the key map alone as well (the caller does not persist on an error)
+            if !removed {
+                return Err(Error::new(ErrorCode::NotFound));
+            }
+
             self.key_map_remove_by_key_set(id);
 
-            // Check if element was actually removed
-            if removed {
-                Ok(())
-            } else {
-                Err(Error::new(ErrorCode::NotFound))
-            }
+            Ok(())
         }
 
         pub fn key_map_add(&mut self, entry: GroupKeyMapping) -> Result<(), Error> {
